@@ -198,7 +198,7 @@ def worker(shard, nshards, tier, seed):
 
 
 def run(tier, seed):
-    acc = parallel(worker, tier, seed)
+    acc = parallel(worker, tier, seed, warm_pass=True)
     cov = {
         "states": acc.n["combinations"],
         "transitions": acc.n["validations"] + acc.n["generations"],
